@@ -8,6 +8,7 @@
   copy.deepcopy is not usable: petl Record objects cannot be deep-copied.
 """
 import datetime
+import fractions
 import decimal
 import hashlib
 import json
@@ -46,6 +47,8 @@ def enc(v):
         return {'t': 'bytearray', 'v': bytes(v).decode('latin-1')}
     if isinstance(v, range):
         return {'t': 'range', 'v': [v.start, v.stop, v.step]}
+    if isinstance(v, fractions.Fraction):
+        return {'t': 'fraction', 'v': [v.numerator, v.denominator]}
     raise TypeError('cannot encode %r' % (v,))
 
 
@@ -74,6 +77,8 @@ def dec(v):
             return bytearray(x.encode('latin-1'))
         if t == 'range':
             return range(*x)
+        if t == 'fraction':
+            return fractions.Fraction(x[0], x[1])
         if t == 'tuple':
             return tuple(dec(y) for y in x)
         if t == 'list':
